@@ -95,6 +95,41 @@ def run_be(PID, prop_file, gen, monitor, nontrivial, rule, n_quick=400, n_thorou
     return run
 
 
+def be_driver_phase(ck, tier, gen, monitor, n_quick, n_thorough, name):
+    """the backend-driver correspondence + a property monitor as a phase of another check (used by C07 for the drain
+    of exited threads' statements): model vs implementation on generated cases, monitor on the implementation;
+    violations are added to ck; returns coverage numbers"""
+    facts = srcfacts_values()
+    mexe, err = ck.build_modelrun()
+    iexe, err2 = ck.build_harness('be', ['be.cpp'], flags=['-ldl'], san=(tier != 'quick'))
+    if not mexe or not iexe:
+        ck.violation('no-failing-input-found', 'backend driver or model did not build: ' + (err or err2 or '')[-400:]); return {'built': False}
+    n = n_quick if tier == 'quick' else n_thorough
+    cobjs = [gen(ck.rng, facts) for _ in range(n)]
+    lines = [c.line() for c in cobjs]; byline = dict(zip(lines, cobjs))
+    ml = ck.run_model(mexe, lines)
+    il = ck.run_impl(iexe, lines, timeout=600, per_case_timeout=15, max_fail=8, stall=15)
+    keep = [k for k, i in enumerate(il) if i != 'NOTRUN']
+    lines = [lines[k] for k in keep]; ml = [ml[k] for k in keep]; il = [il[k] for k in keep]
+    def mon(line, impl):
+        if impl.startswith(('CRASH', 'HANG', 'NOOUTPUT')): return 'implementation ' + impl
+        return monitor(byline[line], BC.parse_obs(impl))
+    def shrink(line, mode):
+        import time
+        c0 = byline[line]; t_end = time.time() + 60
+        def mk(cmds):
+            c = copy.copy(c0); c.cmds = list(cmds); return c
+        def fails(cmds):
+            if time.time() > t_end: return False
+            c = mk(cmds); l = c.line(); i = ck.run_impl(iexe, [l], per_case_timeout=3)[0]
+            if mode == 'monitor':
+                return (i.startswith(('CRASH', 'HANG', 'NOOUTPUT')) or monitor(c, BC.parse_obs(i)) is not None)
+            return ck.run_model(mexe, [l])[0] != i
+        return mk(ddmin(c0.cmds, fails, max_tests=120)).line()
+    dis, mons = correspond(ck, name, lines, ml, il, monitor=mon, shrink=shrink)
+    return {'driver_cases': len(lines), 'disagreements': len(dis), 'monitor_failures': len(mons)}
+
+
 def replay_be(PID, monitor):
     def replay(path):
         d = json.load(open(path)); ck = Check(PID, 'quick'); c = d.get('case')
